@@ -254,6 +254,16 @@ def gen_T16():
     need(removenick_drops or rn.rstrip().endswith('self.nicks[network].remove(nick)'), 'IrcUser.removeNick tail changed: ' + rn)
     gu = ast.unparse(find_def(d, 'getUserFromNick', 'UsersDictionary'))
     need('for user in self.users.values():' in gu and 'if nick in user.nicks[network]:' in gu and 'except KeyError' in gu, 'getUserFromNick changed')
+    # how the files are encoded on disk and decoded again (pinned, fail-closed)
+    af = ast.unparse(find_def(tree('src/utils/file.py'), '__init__', 'AtomicFile'))
+    need("if encoding is None and 'b' not in mode:\n        encoding = 'utf8'" in af
+         and 'codecs.open(self.tempFilename, mode, encoding=encoding)' in af, 'AtomicFile no longer writes text as utf8')
+    need("fd = utils.file.AtomicFile(self.filename)" in ast.unparse(find_def(d, 'flush', 'IgnoresDB')), 'IgnoresDB.flush writer changed')
+    rf = ast.unparse(find_def(tree('src/unpreserve.py'), 'readFile', 'Reader'))
+    need(('self.read(open(filename))' in rf) != ("self.read(open(filename, encoding='utf8'))" in rf), 'Reader.readFile opens the file in an unknown way: ' + rf)
+    io_ = ast.unparse(find_def(d, 'open', 'IgnoresDB'))
+    need(('fd = open(self.filename)\n' in io_) != ("fd = open(self.filename, encoding='utf8')\n" in io_), 'IgnoresDB.open opens the file in an unknown way')
+    reader_utf8, ign_utf8 = "encoding='utf8'" in rf, "fd = open(self.filename, encoding='utf8')" in io_
     out = 'Definition FOLD : list (N * N) := %s.\n' % clist('(%d, %d)' % (ord(x), ord(y)) for x, y in fold)
     out += 'Definition WHITESPACE : list N := %s.\n' % clist(cN(i) for i in ws)
     out += 'Definition CHANTYPES : list N := %s.\n' % cstr(defaults[0])
@@ -267,6 +277,9 @@ def gen_T16():
         out += 'Definition CONF_READ_%s : list (list N) := %s.  (* %s *)\n' % (lab, clist(cstr(x) for x in val), ', '.join(val) or 'none')
     out += 'Definition CHAN_READER_BAN_VIA_SETTER : bool := %s.\nDefinition CHAN_READER_IGN_VIA_SETTER : bool := %s.\n' % (
         'true' if via['ban'] else 'false', 'true' if via['ignore'] else 'false')
+    out += '(* the writers encode utf8 (AtomicFile); do the readers decode utf8 explicitly, or with the locale preferred encoding? *)\n'
+    out += 'Definition READER_DECODES_UTF8 : bool := %s.\nDefinition IGN_READER_DECODES_UTF8 : bool := %s.\n' % (
+        'true' if reader_utf8 else 'false', 'true' if ign_utf8 else 'false')
     out += 'Definition ADDNICK_LIST_BEFORE_CHECK : bool := %s.  (* addNick creates nicks[network] before the "already taken" check *)\n' % (
         'true' if addnick_pre else 'false')
     out += 'Definition REMOVENICK_DROPS_EMPTY : bool := %s.  (* removeNick deletes nicks[network] with its last nick *)\n' % (
